@@ -29,6 +29,7 @@ func checkC14(c *Check) {
 	c14Verify(c)
 	c14StoredHash(c)
 	c14WholePassword(c)
+	c14Surroundings(c)
 	c14Providers(c)
 	c14Mapping(c)
 	c14Gate(c)
@@ -981,4 +982,74 @@ func c14WholePassword(c *Check) {
 		})
 		c.Hold("R3d", refName(fi.Obj)+":whole-password", fi.Decl.Pos(), msg == "", msg)
 	})
+}
+
+// R3e, R1b: the parts of password authentication outside pass_table and SASLAuth.
+//
+// R3e – the LOGIN mechanism hands the authenticator exactly what the client sent: in internal/auth/sasllogin the
+// responses are converted to strings and nothing else (a TrimSpace "for legacy clients" accepts `hunter2 ` for
+// `hunter2` and locks out an account whose password ends in a blank – and PLAIN decides the opposite in both cases).
+//
+// R1b – the default user-name normalisation (authz.NormalizeAuto) and the credential table's key function are of one
+// kind: both PRECIS profiles (width mapping, case mapping, NFC). A lookup-key function of another kind in one of the
+// two places (address.ForLookup does no width mapping) makes `ａｌｉｃｅ@…` miss the auth_map although pass_table
+// would have found the account.
+func c14Surroundings(c *Check) {
+	p := c.P
+	c.Rule("R3e", "sasllogin: the user name and the password reach the authenticator as the client sent them – the package applies no string transformation (trim, case, replace) to the responses", 1)
+	if pk := p.Pkg("internal/auth/sasllogin"); pk == nil {
+		c.Fail("R3e", "package", token.NoPos, "anchor unresolved")
+	} else {
+		msg := ""
+		n := 0
+		p.AllFuncs([]*packagesPkg{pk}, func(fi *FuncInfo) {
+			n++
+			c.SawFunc(fi.Name())
+			for _, call := range callsIn(fi.Decl.Body) {
+				if fn := callee(fi.Info(), call); fn != nil && fn.Pkg() != nil {
+					switch fn.Pkg().Path() {
+					case "strings", "bytes", "unicode", "golang.org/x/text/unicode/norm", "golang.org/x/text/secure/precis":
+						msg = "line " + itoa(p.Fset.Position(call.Pos()).Line) + ": " + fi.Name() + " transforms a client response with " + fn.Pkg().Name() + "." + fn.Name() + ": LOGIN then accepts (or refuses) other passwords than PLAIN does for the same account"
+					}
+				}
+			}
+		})
+		c.Hold("R3e", "sasllogin:responses-verbatim", token.NoPos, msg == "" && n > 0, msg)
+	}
+	c.Rule("R1b", "authz.NormalizeAuto (the default auth_map_normalize) applies a PRECIS profile on both of its branches, as the credential table's key function does", 1)
+	if fi := p.Func("internal/authz", "", "NormalizeAuto"); fi == nil {
+		c.Fail("R1b", "NormalizeAuto", token.NoPos, "anchor unresolved")
+	} else {
+		c.SawFunc(fi.Name())
+		info := fi.Info()
+		isPrecis := func(info *types.Info, call *ast.CallExpr) bool {
+			fn := callee(info, call)
+			return fn != nil && fn.Pkg() != nil && fn.Pkg().Path() == "golang.org/x/text/secure/precis"
+		}
+		msg := ""
+		nret := 0
+		inspectNoLit(fi.Decl.Body, func(x ast.Node) bool {
+			ret, ok := x.(*ast.ReturnStmt)
+			if !ok || len(ret.Results) == 0 {
+				return true
+			}
+			nret++
+			call, isCall := ast.Unparen(ret.Results[0]).(*ast.CallExpr)
+			okRet := false
+			if isCall {
+				if isPrecis(info, call) {
+					okRet = true
+				} else if fn := callee(info, call); fn != nil {
+					if d := p.DeclOf(fn); d != nil && p.reachesCall(d, isPrecis, 2) {
+						okRet = true
+					}
+				}
+			}
+			if !okRet {
+				msg = "line " + itoa(p.Fset.Position(ret.Pos()).Line) + ": a branch of NormalizeAuto returns " + exprStr(ret.Results[0]) + ", which applies no PRECIS profile: full-width / compatibility spellings of a user name that the credential table maps to the account (precis.UsernameCaseMapped) miss a keyed auth_map – the correct password is refused"
+			}
+			return true
+		})
+		c.Hold("R1b", "NormalizeAuto:precis", fi.Decl.Pos(), msg == "" && nret > 0, msg)
+	}
 }
